@@ -38,7 +38,7 @@ def setup(ctx):
         got = np.asarray(got, float)
         tol = 1e-9 * (1.0 + float(np.max(np.abs(want))))
         err = float(np.max(np.abs(got - want))) if got.shape == want.shape and np.all(np.isfinite(got)) else float("inf")
-        mon.check(name, err <= tol, residual=err, observed=got, expected=want)
+        mon.check(name, err <= tol, residual=err, tol=tol, observed=got, expected=want)
 
     def post_det_coor2(tth, eta, distance, y_size, z_size, dety_center, detz_center, R_tilt, tx, ty, tz, result):
         if not proper(R_tilt):
